@@ -235,6 +235,38 @@ class ReMatch:
         return not uf('re_valid', bool, pattern)
 
 
+@external('re.compile')
+class ReCompile:
+    """a compiled pattern (ghost view: the pattern text); re.error when the text is not a valid regular expression"""
+    returns = 'Pattern'
+    params = ['pattern']
+    raises = ('re.error',)
+    fresh = True
+
+    def pre_string(pattern):
+        return pattern is not None
+
+    def post_value(pattern, result):
+        return result.pattern == pattern and uf('re_valid', bool, pattern)
+
+    def exc_reerror_invalid_pattern(pattern, exc):
+        return not uf('re_valid', bool, pattern)
+
+
+@external('Pattern.match')
+class PatternMatch:
+    """None when the compiled pattern does not match at the start of the string, else a Match"""
+    returns = 'Optional[Match]'
+    params = ['p', 'string']
+
+    def pre_string(p, string):
+        return string is not None
+
+    def post_value(p, string, result):
+        return ((result is not None) == uf('re_match_matches', bool, p.pattern, string)
+                and implies(result is not None, result.pattern == p.pattern and result.string == string))
+
+
 @external('Match.group')
 class MatchGroup:
     """text captured by the group (0 = whole match); groups that exist in the pattern and took part in the match
